@@ -1,6 +1,10 @@
 /- helper lemmas for C18 (proof side; may import Mathlib modules) -/
 import Ipv8.Base.Eis
 import Ipv8.C18.Model
+import Mathlib.Tactic.Linarith
+import Mathlib.Tactic.LinearCombination
+import Mathlib.Data.Int.GCD
+import Mathlib.Data.ZMod.Basic
 
 namespace Ipv8.C18
 open Ipv8
@@ -64,4 +68,226 @@ theorem intpowLoop_den (acc u : FP2 R) (n : Nat) :
         ring
 
 end FP2
+
+/-! ### `_modinv`: extended Euclid -/
+
+theorem modinvGo_spec (e m : Int) : ∀ (a b x1 x2 : Int), 0 ≤ a → 0 ≤ b → m ∣ x1 * e - a → m ∣ x2 * e - b →
+    m ∣ modinvGo a b x1 x2 * e - (Int.gcd a b : Int) := by
+  intro a b x1 x2
+  induction a, b, x1, x2 using modinvGo.induct with
+  | case1 a b x1 x2 hb ih =>
+    intro ha hb0 h1 h2
+    rw [modinvGo, dif_pos hb]
+    have hg : Int.gcd b (a % b) = Int.gcd a b := by
+      rw [Int.gcd_comm, Int.gcd_emod]
+    rw [← hg]
+    apply ih (by omega) (Int.emod_nonneg a (by omega)) h2
+    have : (x1 - a / b * x2) * e - a % b = (x1 * e - a) - (a / b) * (x2 * e - b) := by
+      rw [Int.emod_def]; ring
+    rw [this]
+    exact Dvd.dvd.sub h1 (Dvd.dvd.mul_left h2 _)
+  | case2 a b x1 x2 hb =>
+    intro ha hb0 h1 h2
+    rw [modinvGo, dif_neg hb]
+    have : b = 0 := by omega
+    subst this
+    simp only [Int.gcd_zero_right]
+    rw [Int.natAbs_of_nonneg ha]
+    exact h1
+
+/-- `_modinv(e, m) * e ≡ gcd(e, m) (mod m)`; in particular it is the inverse when e and m are coprime -/
+theorem modinv_mul (e m : Int) (he : 0 ≤ e) (hm : 0 < m) : (modinv e m * e) % m = (Int.gcd e m : Int) % m := by
+  have h := modinvGo_spec e m e m 1 0 he (le_of_lt hm) (by simp) (by simp)
+  unfold modinv
+  rw [Int.mul_emod, Int.emod_emod_of_dvd _ (dvd_refl m), ← Int.mul_emod]
+  exact Int.emod_eq_emod_iff_emod_sub_eq_zero.mpr (Int.emod_eq_zero_of_dvd h)
+
+theorem modinv_nonneg (e m : Int) (hm : 0 < m) : 0 ≤ modinv e m := Int.emod_nonneg _ (by omega)
+
+theorem modinv_zero (m : Int) (hm : 0 < m) : modinv 0 m = 0 := by
+  unfold modinv
+  rw [modinvGo, dif_pos hm, modinvGo, dif_neg (by simp)]
+  simp
+
+/-! ### from the integers CPython computes with to any commutative ring in which p = 0 (e.g. ZMod p) -/
+
+section cast
+variable {R : Type} [CommRing R]
+
+/-- coefficient-wise cast -/
+def castV (v : FP2 Int) : FP2 R :=
+  { a := (v.a : R), b := (v.b : R), c := (v.c : R), aC := (v.aC : R), bC := (v.bC : R), cC := (v.cC : R) }
+
+theorem cast_emod (p x : Int) (hp : ((p : Int) : R) = 0) : (((x % p : Int)) : R) = (x : R) := by
+  rw [Int.emod_def]; push_cast; rw [hp]; ring
+
+theorem castV_modP (p : Int) (hp : ((p : Int) : R) = 0) (v : FP2 Int) : (castV (modP p v) : FP2 R) = castV v := by
+  simp [castV, modP, cast_emod p _ hp]
+
+theorem castV_add (s o : FP2 Int) : (castV (FP2.add s o) : FP2 R) = FP2.add (castV s) (castV o) := by
+  simp [castV, FP2.add]
+theorem castV_sub (s o : FP2 Int) : (castV (FP2.sub s o) : FP2 R) = FP2.sub (castV s) (castV o) := by
+  simp [castV, FP2.sub]
+theorem castV_mul (s o : FP2 Int) : (castV (FP2.mul s o) : FP2 R) = FP2.mul (castV s) (castV o) := by
+  simp [castV, FP2.mul]
+theorem castV_div (s o : FP2 Int) : (castV (FP2.div s o) : FP2 R) = FP2.div (castV s) (castV o) := by
+  simp [castV, FP2.div]
+theorem castV_inv (s : FP2 Int) : (castV (FP2.inv s) : FP2 R) = FP2.inv (castV s) := by
+  simp [castV, FP2.inv]
+
+theorem castV_addP (p : Int) (hp : ((p : Int) : R) = 0) (s o : FP2 Int) :
+    (castV (addP p s o) : FP2 R) = FP2.add (castV s) (castV o) := by rw [addP, castV_modP p hp, castV_add]
+theorem castV_subP (p : Int) (hp : ((p : Int) : R) = 0) (s o : FP2 Int) :
+    (castV (subP p s o) : FP2 R) = FP2.sub (castV s) (castV o) := by rw [subP, castV_modP p hp, castV_sub]
+theorem castV_mulP (p : Int) (hp : ((p : Int) : R) = 0) (s o : FP2 Int) :
+    (castV (mulP p s o) : FP2 R) = FP2.mul (castV s) (castV o) := by rw [mulP, castV_modP p hp, castV_mul]
+theorem castV_divP (p : Int) (hp : ((p : Int) : R) = 0) (s o : FP2 Int) :
+    (castV (divP p s o) : FP2 R) = FP2.div (castV s) (castV o) := by rw [divP, castV_modP p hp, castV_div]
+theorem castV_invP (p : Int) (hp : ((p : Int) : R) = 0) (s : FP2 Int) :
+    (castV (invP p s) : FP2 R) = FP2.inv (castV s) := by rw [invP, castV_modP p hp, castV_inv]
+
+theorem castV_intpowLoopP (p : Int) (hp : ((p : Int) : R) = 0) (n : Nat) : ∀ (acc u : FP2 Int),
+    (castV (intpowLoopP p acc u n) : FP2 R) = FP2.intpowLoop (castV acc) (castV u) n := by
+  induction n using Nat.strongRecOn with
+  | _ n ih =>
+    intro acc u
+    rw [intpowLoopP, FP2.intpowLoop]
+    split
+    · rfl
+    · rw [ih (n / 2) (by omega), castV_mulP p hp]
+      split <;> simp [castV_mulP p hp]
+
+theorem castV_normalize_pos (p : Int) (hz : ((p : Int) : R) = 0) (v : FP2 Int) (mp : Int) :
+    (castV (modP p { a := (v.a * mp) % p, b := (v.b * mp) % p, c := (v.c * mp) % p, aC := 1,
+                     bC := (v.bC * mp) % p, cC := (v.cC * mp) % p }) : FP2 R)
+      = FP2.normalizeWith (mp : R) (castV v) := by
+  simp [castV, modP, FP2.normalizeWith, cast_emod p _ hz]
+
+/-- ring-level: normalising with an inverse mp of aC keeps the fraction -/
+theorem normalizeWith_cross (mp : R) (v : FP2 R) (h : mp * v.aC = 1) :
+    (FP2.normalizeWith mp v).num * v.den = v.num * (FP2.normalizeWith mp v).den := by
+  have h' : (1 : R) = mp * v.aC := h.symm
+  ext <;> simp only [FP2.normalizeWith, FP2.num, FP2.den, Eis.mul_re, Eis.mul_im] <;> rw [h'] <;> ring
+
+end cast
+
+section prime
+variable (p : Nat) (hp : p.Prime)
+include hp
+
+theorem zmod_p_zero : (((p : Int)) : ZMod p) = 0 := by simp
+
+theorem gcd_of_prime (x : Int) (hx0 : 0 ≤ x) (hxp : x < p) (hne : x ≠ 0) : Int.gcd x p = 1 := by
+  rw [Int.gcd_eq_natAbs, Int.natAbs_natCast, Nat.gcd_comm]
+  apply (Nat.Prime.coprime_iff_not_dvd hp).2
+  intro hd
+  have h1 : 0 < x.natAbs := Int.natAbs_pos.mpr hne
+  have h2 := Nat.le_of_dvd h1 hd
+  omega
+
+/-- for a prime modulus `_modinv` of a residue is 0 (residue 0) or its multiplicative inverse -/
+theorem modinv_prime (x : Int) : let mp := modinv (x % p) p
+    (x % (p : Int) = 0 ∧ mp = 0) ∨ (0 < mp ∧ ((mp : Int) : ZMod p) * ((x : Int) : ZMod p) = 1) := by
+  intro mp
+  have hp0 : (0 : Int) < p := by exact_mod_cast hp.pos
+  by_cases h0 : x % (p : Int) = 0
+  · left; exact ⟨h0, by simp only [mp]; rw [h0]; exact modinv_zero _ hp0⟩
+  · right
+    have hx0 := Int.emod_nonneg x (by omega : (p : Int) ≠ 0)
+    have hxp := Int.emod_lt_of_pos x hp0
+    have hg := gcd_of_prime p hp (x % p) hx0 hxp h0
+    have hm := modinv_mul (x % p) p hx0 hp0
+    rw [hg] at hm
+    have hz : (((mp * (x % (p : Int)) : Int)) : ZMod p) = 1 := by
+      have := congrArg (Int.cast (R := ZMod p)) hm
+      rw [cast_emod (p : Int) _ (zmod_p_zero p hp), cast_emod (p : Int) _ (zmod_p_zero p hp)] at this
+      simpa using this
+    have hz' : ((mp : Int) : ZMod p) * ((x : Int) : ZMod p) = 1 := by
+      rw [Int.cast_mul, cast_emod (p : Int) _ (zmod_p_zero p hp)] at hz
+      exact hz
+    refine ⟨?_, hz'⟩
+    have hnn := modinv_nonneg (x % p) p hp0
+    rcases lt_or_eq_of_le hnn with h | h
+    · exact h
+    · exfalso
+      have : ((mp : Int) : ZMod p) = 0 := by simp only [mp]; rw [← h]; simp
+      rw [this, zero_mul] at hz'
+      have := Fact.mk hp
+      exact zero_ne_one hz'
+
+/-- `normalize` keeps the value: the normalised fraction equals the original one (cross-multiplied, in F_p[ω]) -/
+theorem normalizeP_cross (v : FP2 Int) :
+    (castV (normalizeP p v) : FP2 (ZMod p)).num * (castV v : FP2 (ZMod p)).den
+      = (castV v : FP2 (ZMod p)).num * (castV (normalizeP p v) : FP2 (ZMod p)).den := by
+  have hz := zmod_p_zero p hp
+  unfold normalizeP
+  simp only []
+  rcases modinv_prime p hp v.aC with ⟨_, h0⟩ | ⟨hpos, hinv⟩
+  · rw [if_neg (by rw [h0]; simp), castV_modP _ hz]
+  · rw [if_pos hpos, castV_normalize_pos (p : Int) hz]
+    exact normalizeWith_cross _ _ (by simpa [castV] using hinv)
+
+
+omit hp in
+theorem emod_eq_iff_cast (x y : Int) : x % (p : Int) = y % (p : Int) ↔ ((x : Int) : ZMod p) = ((y : Int) : ZMod p) :=
+  (ZMod.intCast_eq_intCast_iff x y p).symm
+
+/-- the test `__eq__` performs on `d0 = self // other` is `num d0 = den d0` in F_p[ω] -/
+theorem eq_test_iff (d0 : FP2 Int) (hc : d0.c = 0) (hcC : d0.cC = 0) :
+    (let d := normalizeP p d0; (d.a == d.aC && d.b == d.bC && d.c == d.cC)) = true
+      ↔ (castV d0 : FP2 (ZMod p)).num = (castV d0 : FP2 (ZMod p)).den := by
+  have hz := zmod_p_zero p hp
+  have hnd : (castV d0 : FP2 (ZMod p)).num = (castV d0 : FP2 (ZMod p)).den ↔
+      ((d0.a : Int) : ZMod p) = ((d0.aC : Int) : ZMod p) ∧ ((d0.b : Int) : ZMod p) = ((d0.bC : Int) : ZMod p) := by
+    constructor
+    · intro h
+      have h1 := congrArg Eis.re h
+      have h2 := congrArg Eis.im h
+      simpa [FP2.num, FP2.den, castV, hc, hcC] using And.intro h1 h2
+    · rintro ⟨h1, h2⟩
+      ext <;> simp [FP2.num, FP2.den, castV, hc, hcC, h1, h2]
+  rw [hnd]
+  unfold normalizeP
+  simp only [Bool.and_eq_true, beq_iff_eq]
+  rcases modinv_prime p hp d0.aC with ⟨_, h0⟩ | ⟨hpos, hinv⟩
+  · rw [if_neg (by rw [h0]; simp)]
+    simp only [modP, hc, hcC, and_true]
+    rw [emod_eq_iff_cast, emod_eq_iff_cast]
+  · rw [if_pos hpos]
+    simp only [modP, hc, hcC, zero_mul, Int.zero_emod, and_true]
+    rw [emod_eq_iff_cast, emod_eq_iff_cast]
+    simp only [cast_emod (p : Int) _ hz, Int.cast_mul, Int.cast_one]
+    set mp : ZMod p := ((modinv (d0.aC % (p : Int)) (p : Int) : Int) : ZMod p) with hmp
+    set A : ZMod p := ((d0.a : Int) : ZMod p)
+    set B : ZMod p := ((d0.b : Int) : ZMod p)
+    set AC : ZMod p := ((d0.aC : Int) : ZMod p)
+    set BC : ZMod p := ((d0.bC : Int) : ZMod p)
+    constructor
+    · rintro ⟨h1, h2⟩
+      constructor
+      · calc A = A * (mp * AC) := by rw [hinv, mul_one]
+          _ = (A * mp) * AC := by ring
+          _ = AC := by rw [h1, one_mul]
+      · calc B = (B * mp) * AC := by rw [mul_assoc, hinv, mul_one]
+          _ = (BC * mp) * AC := by rw [h2]
+          _ = BC := by rw [mul_assoc, hinv, mul_one]
+    · rintro ⟨h1, h2⟩
+      exact ⟨by rw [h1, mul_comm, hinv], by rw [h2]⟩
+
+/-- `__eq__` decides equality of the two fractions in F_p[ω] (cross-multiplied) -/
+theorem eqP_iff' (s o : FP2 Int) : eqP p s o = true ↔
+    (castV s : FP2 (ZMod p)).num * (castV o : FP2 (ZMod p)).den
+      = (castV s : FP2 (ZMod p)).den * (castV o : FP2 (ZMod p)).num := by
+  have hz := zmod_p_zero p hp
+  unfold eqP
+  rw [eq_test_iff p hp (divP p s o) (by simp [divP, modP, FP2.div]) (by simp [divP, modP, FP2.div])]
+  rw [castV_divP (p : Int) hz]
+  have e1 : (FP2.div (castV s : FP2 (ZMod p)) (castV o)).num = (castV s : FP2 (ZMod p)).num * (castV o : FP2 (ZMod p)).den := by
+    ext <;> simp [FP2.div, FP2.num, FP2.den] <;> ring
+  have e2 : (FP2.div (castV s : FP2 (ZMod p)) (castV o)).den = (castV s : FP2 (ZMod p)).den * (castV o : FP2 (ZMod p)).num := by
+    ext <;> simp [FP2.div, FP2.num, FP2.den] <;> ring
+  rw [e1, e2]
+
+end prime
+
 end Ipv8.C18
